@@ -7,7 +7,7 @@ use std::sync::Arc;
 use vsched::rt;
 
 pub fn list() -> Vec<(&'static str, super::Scenario)> {
-    vec![("pipe_drop_output", pipe_drop_output), ("pipe_in_items", pipe_in_items), ("pipe_out", pipe_out)]
+    vec![("pipe_drop_output", pipe_drop_output), ("pipe_in_items", pipe_in_items), ("pipe_out", pipe_out), ("pipe_steal", pipe_steal)]
 }
 
 fn dobj(w: &World) -> (Arc<Desync<Payload>>, Arc<ObjState>) {
@@ -242,6 +242,87 @@ fn pipe_out(cfg: &Cfg) {
     if Arc::strong_count(&obj) != 1 {
         rt::violation(format!("PIPE-OUT-LEAK the finished pipe still holds {} strong reference(s) on the Desync", Arc::strong_count(&obj) - 1));
     }
+    drop(obj);
+    check_no_unplanned_panics();
+    rt::quiesce();
+    shutdown();
+}
+
+/// C12 when the producing job is not run by the pool: every pool thread is pinned, an item arrives,
+/// and a task polls *another* future on the same Desync once, which makes that poll run the pipe's
+/// producing job; the processing future suspends (gate), the polled future is kept but never polled
+/// again.  When the pool threads become free and the gate opens, the pipe must still deliver.
+fn pipe_steal(cfg: &Cfg) {
+    use std::future::Future;
+    let pool = cfg.pool();
+    setup(pool);
+    let w = World::new();
+    let mut pins = vec![];
+    for i in 0..pool {
+        let bq = w.raw();
+        let bg = BGate::new();
+        w.desync(&bq, &format!("pin{}", i), Body::blocking(&bg));
+        pins.push((bq, bg));
+    }
+    rt::quiesce();
+    let (obj, st) = dobj(&w);
+    let (stream, ctl) = scripted_stream(&[]);
+    let g = Gate::new();
+    let (st2, g2) = (st.clone(), g.clone());
+    let mut out = pipe(obj.clone(), stream, move |p: &mut Payload, item: u32| {
+        p.check("pipe-item");
+        let (st3, g3) = (st2.clone(), g2.clone());
+        async move {
+            st3.enter("pipe-item");
+            g3.await;
+            vsched::thread::yield_now();
+            st3.exit();
+            item + 100
+        }
+        .boxed()
+    });
+    ctl.push(1);
+    let wobj = Obj::D(obj.clone(), st.clone());
+    let mut h = w.future_desync(&wobj, "EXTRA-FD", Body::plain());
+    let mut f = Box::pin(h.fut.take().unwrap());
+    let (wk, _c) = counting_waker();
+    let mut cx = futures::task::Context::from_waker(&wk);
+    let first = f.as_mut().poll(&mut cx);
+    // the environment: pool threads become free, the awaited event happens, the input ends
+    let (g4, ctl2) = (g.clone(), ctl.clone());
+    let bgs: Vec<BGate> = pins.iter().map(|p| p.1.clone()).collect();
+    let env = spawn(move || {
+        for bg in &bgs {
+            bg.open();
+        }
+        g4.open();
+        ctl2.end();
+    });
+    let prev = rt::note("in:pipe-consumer");
+    let mut got = vec![];
+    while let Some(v) = block_on(out.next()) {
+        got.push(v);
+        if got.len() > 3 {
+            break;
+        }
+    }
+    rt::note(&prev);
+    if got != vec![101] {
+        rt::violation(format!("PIPE-OUT-ITEMS consumer received {:?}, expected [101] then end of stream", got));
+    }
+    join(env, "env");
+    let r = match first {
+        futures::task::Poll::Ready(r) => r,
+        _ => block_on(f),
+    };
+    if r != Ok(h.token) {
+        rt::violation("FUTURE-RESULT EXTRA-FD resolved to the wrong value".into());
+    }
+    drop(wobj);
+    rt::quiesce();
+    drop(out);
+    rt::quiesce();
+    w.check_quiet();
     drop(obj);
     check_no_unplanned_panics();
     rt::quiesce();
